@@ -71,6 +71,7 @@ struct Gen {
     for (int i = 0; i < nl; i++) {
       Recipe r; int tries = 0; std::shared_ptr<Link> l;
       do { r = pool_recipe(c.master, g.below(pool), many_ch); if (r.trim && (prop == "C20" || prop == "C19" || prop == "C03" || prop == "C13" || prop == "C12" || prop == "C17")) r.trim += r.trim & 1; /* half rate is toggled in these histories: keep the cut on the even grid */ if (p_bs64 > 0 && g.chance(p_bs64)) { r.bs64 = 1; r.cut = 0; r.trim = 0; r.sig = g.chance(0.75) ? 6 : 1; r.n = std::max<int64_t>(r.n, 3000); } l = get_link(r); } while ((!l->ok || l->ref_err || r.n * r.ch > budget) && ++tries < 20);
+      if (prop == "C17" && g.chance(0.03)) { Recipe z; z.ch = g.chance(0.7) ? 255 : 254; z.rate = 8000; z.q = 0.4; z.n = 1200 + 600 * (int64_t)g.below(3); z.sig = 2; z.seed = 7; z.ncomm = 1; auto lz = get_link(z); if (lz->ok && !lz->ref_err) { r = z; l = lz; } }   // the format's maximum channel count (the quick tier's recipe pool is too small to be sure of containing it)
       if (!l->ok || l->ref_err) continue;
       if (nl >= 3 && i > 0 && i + 1 < nl && g.chance(0.15)) { Recipe z = r; z.n = (int64_t)g.below(3); z.cut = z.trim = z.bs64 = 0; auto lz = get_link(z); if (lz->ok && !lz->ref_err) { r = z; l = lz; } }   // a zero/one/two-sample link between two others
       budget -= r.n * r.ch; if (budget < 2000) budget = 2000;
@@ -214,11 +215,11 @@ struct Gen {
     mark();  // the open
     int nr = (int)g.range(0, 3); for (int i = 0; i < nr; i++) { read_op(0.2, 2); mark(); }
     int ns = (int)g.range(1, 5); for (int i = 0; i < ns; i++) { seek_op("", false); mark(); if (g.chance(0.7)) { read_op(0.2, 2); mark(); } }
-    if (g.chance(0.25)) { seek_op("_lap", false); mark(); }
+    size_t lapidx = 0; if (g.chance(0.45)) { seek_op("_lap", false); mark(); lapidx = opidx.back(); }
     if (g.chance(0.2)) { op("halfrate").set("flag", (int64_t)g.below(2)); mark(); op("halfrate").set("flag", 0); }
     if (g.chance(0.2)) { op("tells"); mark(); }
     // fault: kind x callback ordinal x persistence (the per-scenario enumeration over ordinals is done by the driver via fault=... rewriting)
-    size_t target = opidx[g.below(opidx.size())];
+    size_t target = opidx[g.below(opidx.size())]; if (lapidx && g.chance(0.4)) target = lapidx;   // the lapped seeks embed a seek and a priming read: two places for a failure to be swallowed
     static const char *kinds[] = {"EIO", "EOF0", "SHORT1", "SEEKFAIL", "TELLFAIL"};
     std::string pers = g.chance(0.5) ? "" : (g.chance(0.6) ? ":p" : fmt(":%d", (int)g.range(2, 6)));
     if (prop == "C12" && g.chance(thorough ? 0.8 : 0.5)) {   // per-scenario enumeration of the fault position over every callback of the target op
